@@ -347,19 +347,17 @@ impl<'a> TextExtractor<'a> {
                         let end = buf.get_cursor();
                         return Err(LocatedVal::new(err, start, end))
                     }
-                    for a in args.iter() {
-                        match a.val() {
-                            CSObjT::String(v) => {
-                                // We haven't type-checked the args,
-                                // so we are relying on the fact that
-                                // there is a single text argument to
-                                // these operators.
+                    // check each operand against the kind declared for
+                    // its position in the operator table.
+                    for (a, t) in args.iter().zip(op_args.iter()) {
+                        match (a.val(), t) {
+                            (CSObjT::String(v), ArgType::String) => {
                                 if op_name.as_str() != "Tj" {
                                     texts.push(TextToken::Space);
                                 }
                                 texts.push(TextToken::RawText(v.clone()))
                             },
-                            CSObjT::Integer(_) | CSObjT::Real(_) if op_name.as_str() == "\"" => (),
+                            (CSObjT::Integer(_) | CSObjT::Real(_), ArgType::Number) => (),
                             _ => {
                                 let msg = format!(
                                     "content stream {:?}: unexpected arg type {:?} for {}",
